@@ -94,11 +94,17 @@ TARGETS = list(GL.TARGETS) + [
     ("src/bitvector/mod.rs", "DataLine", "select1_unchecked", "g_bline_select1_unchecked", {}),
     ("src/bitvector/mod.rs", "DataLine", "select0_unchecked", "g_bline_select0_unchecked", {}),
     ("src/bitvector/mod.rs", "BitVectorMut", "get_bit_slice", "g_get_bit_slice", {}),
+    ("src/bitvector/mod.rs", "BitVectorMut", "get_bits_slice", "g_get_bits_slice", {}),
     ("src/bitvector/mod.rs", "BitVector", "is_empty", "g_bv_is_empty", {}),
     ("src/bitvector/mod.rs", "BitVector", "len", "g_bv_len", {}),
     ("src/bitvector/mod.rs", "BitVector", "get_unchecked", "g_bv_get_unchecked", {}),
     ("src/bitvector/mod.rs", "BitVector", "get", "g_bv_get", {}),
     ("src/bitvector/mod.rs", "BitVector", "get_word", "g_bv_get_word", {}),
+    ("src/bitvector/mod.rs", "BitVector", "get_bits_unchecked", "g_bv_get_bits_unchecked", {}),
+    ("src/bitvector/mod.rs", "BitVector", "get_bits", "g_bv_get_bits", {}),
+    ("src/bitvector/mod.rs", "BitVector", "count_ones", "g_bv_count_ones", {}),
+    ("src/bitvector/mod.rs", "BitVector", "count_zeros", "g_bv_count_zeros", {}),
+    ("src/bitvector/mod.rs", "BitVector", "n_lines", "g_bv_n_lines", {}),
     # ---- group rsn2: RSNarrow queries
     ("src/bitvector/rs_narrow.rs", "RSNarrow", "new", "g_rsn_new", {}),
     ("src/bitvector/rs_narrow.rs", "RSNarrow", "rank1_unchecked", "g_rsn_rank1_unchecked", {}),
@@ -128,6 +134,8 @@ TARGETS = list(GL.TARGETS) + [
     ("src/bitvector/rs_wide.rs", "RSWide", "rank0@RankBin@src/lib.rs", "g_rsw_rank0", {}),
     ("src/bitvector/rs_wide.rs", "RSWide", "rank0_unchecked@RankBin@src/lib.rs", "g_rsw_rank0_unchecked", {}),
     # ---- group rss: SuperblockPlain / RSSupportPlain (both block sizes)
+    ("src/qvector/rs_qvector/rs_support_plain.rs", "SuperblockPlain", "new", "g_sb_new", {}),
+    ("src/qvector/rs_qvector/rs_support_plain.rs", "SuperblockPlain", "set_block_counters", "g_sb_set_block_counters", {}),
     ("src/qvector/rs_qvector/rs_support_plain.rs", "SuperblockPlain", "get_block_counter", "g_sb_get_block_counter", {}),
     ("src/qvector/rs_qvector/rs_support_plain.rs", "SuperblockPlain", "block_predecessor", "g_sb_block_predecessor", {}),
     ("src/qvector/rs_qvector/rs_support_plain.rs", "RSSupportPlain", "superblock_index", "g_rss256_superblock_index", {"B_SIZE": 256}),
@@ -141,6 +149,8 @@ TARGETS = list(GL.TARGETS) + [
     # ---- group qv2: QVector accessors (DataLine leaves are T3's)
     ("src/qvector/mod.rs", "QVector", "get_unchecked", "g_qv_get_unchecked", {}),
     ("src/qvector/mod.rs", "QVector", "get", "g_qv_get", {}),
+    ("src/qvector/rs_qvector/rs_support_plain.rs", "RSSupportPlain", "new", "g_rss256_new", {"B_SIZE": 256}),
+    ("src/qvector/rs_qvector/rs_support_plain.rs", "RSSupportPlain", "new", "g_rss512_new", {"B_SIZE": 512}),
     # ---- group rsq: RSQVector (both block sizes)
     ("src/qvector/rs_qvector.rs", "RSQVector", "select_intra_block", "g_rsq256_select_intra_block", {"S": "RSSupportPlain", "B_SIZE": 256}),
     ("src/qvector/rs_qvector.rs", "RSQVector", "rank_intra_block", "g_rsq256_rank_intra_block", {"S": "RSSupportPlain", "B_SIZE": 256}),
@@ -257,12 +267,29 @@ TARGETS = list(GL.TARGETS) + [
     ("src/darray/mod.rs", "DArray", "select1_unchecked", "g_da0_select1_unchecked", {"SELECT0_SUPPORT": True, "BIT": True}),
     ("src/darray/mod.rs", "DArray", "select0", "g_da0_select0", {"SELECT0_SUPPORT": True, "BIT": False}),
     ("src/darray/mod.rs", "DArray", "select0_unchecked", "g_da0_select0_unchecked", {"SELECT0_SUPPORT": True, "BIT": False}),
+    # ---- group bvm: BitVectorMut (the `&mut self` operations return the new values of the fields)
+    ("src/bitvector/mod.rs", "DataLine", "set_symbol", "g_bline_set_symbol", {"__t3__": True}),
+    ("src/bitvector/mod.rs", "BitVectorMut", "len", "g_bvm_len", {}),
+    ("src/bitvector/mod.rs", "BitVectorMut", "is_empty", "g_bvm_is_empty", {}),
+    ("src/bitvector/mod.rs", "BitVectorMut", "count_ones", "g_bvm_count_ones", {}),
+    ("src/bitvector/mod.rs", "BitVectorMut", "count_zeros", "g_bvm_count_zeros", {}),
+    ("src/bitvector/mod.rs", "BitVectorMut", "get_unchecked", "g_bvm_get_unchecked", {}),
+    ("src/bitvector/mod.rs", "BitVectorMut", "get", "g_bvm_get", {}),
+    ("src/bitvector/mod.rs", "BitVectorMut", "get_bits_unchecked", "g_bvm_get_bits_unchecked", {}),
+    ("src/bitvector/mod.rs", "BitVectorMut", "get_bits", "g_bvm_get_bits", {}),
+    ("src/bitvector/mod.rs", "BitVectorMut", "get_word", "g_bvm_get_word", {}),
+    ("src/bitvector/mod.rs", "BitVectorMut", "push", "g_bvm_push", {}),
+    ("src/bitvector/mod.rs", "BitVectorMut", "append_bits", "g_bvm_append_bits", {}),
+    ("src/bitvector/mod.rs", "BitVectorMut", "extend_with_zeros", "g_bvm_extend_with_zeros", {}),
+    ("src/bitvector/mod.rs", "BitVectorMut", "set", "g_bvm_set", {}),
+    ("src/bitvector/mod.rs", "BitVectorMut", "set_bits", "g_bvm_set_bits", {}),
+    ("src/bitvector/mod.rs", "BitVectorMut", "shrink_to_fit", "g_bvm_shrink_to_fit", {}),
 ]
 
 # group -> (source file, owner types or None, first index in TARGETS that belongs to T5)
 T5_START = len(GL.TARGETS)
 GROUPS = {
-    "bv": ("src/bitvector/mod.rs", None),
+    "bv": ("src/bitvector/mod.rs", ("DataLine", "BitVector", "BitVectorMut@bv")),
     "rsn2": ("src/bitvector/rs_narrow.rs", None),
     "rsw2": ("src/bitvector/rs_wide.rs", None),
     "rss": ("src/qvector/rs_qvector/rs_support_plain.rs", None),
@@ -272,24 +299,27 @@ GROUPS = {
     "hqwt": ("src/quadwt/huffqwt.rs", None),
     "wt": ("src/binwt/mod.rs", None),
     "da": ("src/darray/mod.rs", None),
+    "bvm": ("src/bitvector/mod.rs", ("BitVectorMut", "DataLine@mut")),
 }
 # which generated files a group's file must import (T3 leaves and earlier T5 groups)
 GROUP_IMPORTS = {
     "bv": ["LeavesUtils"],
     "rsn2": ["LeavesUtils", "LeavesRSN", "FnsBv"],
     "rsw2": ["LeavesUtils", "LeavesRSW", "FnsBv"],
-    "rss": ["LeavesSB"],
+    "rss": ["LeavesSB", "LeavesLine", "LeavesQV", "FnsQv2"],
     "qv2": ["LeavesLine", "LeavesQV"],
     "qwt": ["FnsRsq"],
     "hqwt": ["FnsRsq"],
     "wt": ["FnsBv", "FnsRsw2"],
     "da": ["LeavesUtils", "FnsBv"],
+    "bvm": ["LeavesUtils", "FnsBv"],
     "rsq": ["LeavesUtils", "LeavesSB", "LeavesLine", "LeavesQV", "FnsRss", "FnsQv2"],
 }
 
 GL.RESERVED |= set("""while_loop for_loop iter_loop Next Brk Ret Done Retd len concat ounwrap wshl wshr fsqrt fuel Some
     None option step fin r s v zwrap ziadd zisub zimul zineg zshamt Z left right inl inr pair fst snd S O nil cons xH xO xI N0 Npos
-    Z0 Zpos Zneg eq_refl conj I opt_ltb nthN wT for_loop_rev checked_add obsearch_fst iteri_loop ofold push_at""".split())
+    Z0 Zpos Zneg eq_refl conj I opt_ltb nthN wT for_loop_rev checked_add obsearch_fst iteri_loop ofold push_at resize_with last_opt set_last setN
+    last_ e_ omap""".split())
 
 
 # ------------------------------------------------------------------------------ item index with trait info
@@ -589,6 +619,16 @@ class Parser5(Parser):
                 c = self.expr_nostruct()
                 stmts.append(("while", c, self.loop_body()))
                 self.accept(";")
+            elif self.at("for") and self.peek(1).kind == "id" and self.at("in", 2) and self.at("&", 3) and self.at("mut", 4):
+                # for x in &mut L { .. }: every element of the local list L is replaced by its value after the body
+                self.i += 1
+                xvar = self.ident()
+                self.i += 3
+                lst = self.expr_nostruct()
+                body = self.loop_body()
+                self.accept(";")
+                stmts.append(("formut", xvar, lst, body))
+                continue
             elif self.at("for") and (self.at("(", 1) or self.at("&", 1) or (self.peek(1).kind == "id" and self.at("in", 2)
                                                                              and self.for_over_iter(3))):
                 # for (i, &x) in L.iter().enumerate() { } / for &x in L.iter() { } / for x in L.iter() { }
@@ -677,6 +717,20 @@ class Parser5(Parser):
                 self.accept(";")
                 if not self.at("}"):
                     self.fail("statement after `return`")
+            elif t.kind == "id" and self.at("!", 1) and t.text in ("debug_assert_eq", "assert_eq"):
+                self.i += 2
+                self.expect("(")
+                a = self.expr()
+                self.expect(",")
+                b = self.expr()
+                if self.accept(","):
+                    if self.peek().kind != "str" or "{" in self.peek().text:
+                        self.fail("%s! message with format arguments" % t.text)
+                    self.i += 1
+                    self.accept(",")
+                self.expect(")")
+                self.accept(";")
+                stmts.append(("macro", t.text[:-3], ("bin", "==", a, b)))
             elif t.kind == "id" and self.at("!", 1) and t.text not in ("if", "while", "match", "return", "for", "in"):
                 if t.text not in ("debug_assert", "assert"):
                     self.fail("macro `%s!`" % t.text)
@@ -747,8 +801,10 @@ class Parser5(Parser):
     def loop_body(self):
         """a loop body has type (): a trailing `if` / block without `;` is a statement"""
         _, stmts, tail = self.block()
-        if tail is not None and tail[0] in ("if", "block"):
+        if tail is not None and tail[0] in ("if", "block", "iflet"):
             stmts, tail = stmts + [("expr", tail)], None
+        if tail is not None and tail[0] == "mcall":
+            stmts, tail = stmts + [("call", tail)], None      # a unit-valued method call without `;`
         return ("block", stmts, tail)
 
     def expr_nostruct(self):
@@ -772,6 +828,18 @@ class Parser5(Parser):
         if t0.kind == "str":
             self.i += 1
             return ("str", t0.text)
+        if t0.kind == "op" and t0.text == "[":
+            # [e; n] (array repeat) or [a, b, ..]
+            save = self.i
+            self.i += 1
+            first = self.expr() if not self.at("]") else None
+            if first is not None and self.accept(";"):
+                n = self.expr()
+                self.expect("]")
+                if n[0] != "lit":
+                    self.fail("array repeat length (literal expected)")
+                return ("array", [first] * n[1])
+            self.i = save
         if t0.kind == "op" and t0.text == "|":
             # closure |pat| body  (only as the key function of binary_search_by_key)
             self.i += 1
@@ -912,12 +980,17 @@ class FnT5(FnTranslator):
         self.needs_fuel = False
         # leaf paths of self used by the function
         self.paths, self.path_coq, self.path_ty = [], {}, {}
+        self.is_mut = self.selfkind == "mut"
+        self.elem_nominal = {}
         if self.selfkind:
-            if self.selfkind == "mut":
-                self.fail("`&mut self` method")
             used = []
-            self.scan_paths(self.body, used)
             allp = self.leaf_paths(("struct", owner), unit)
+            if self.is_mut:
+                # a `&mut self` method takes every field of the struct and returns their new values (a tuple, in
+                # declaration order, followed by the method's own result if it has one)
+                used = [pp for pp, _ in allp]
+            else:
+                self.scan_paths(self.body, used)
             self.paths = [pt for pt in allp if pt[0] in used]
             single = len(unit.struct_fields(owner, self.where)) == 1
             for path, ty in self.paths:
@@ -928,6 +1001,27 @@ class FnT5(FnTranslator):
                 self.path_ty[path] = ty
                 self.field_coq["/".join(path)] = coq
             self.paths = [pt[0] for pt in self.paths]
+            if self.is_mut:
+                raw = dict(self.fields_of(owner)[1])
+                for pp in self.paths:
+                    ft = raw.get(pp[0]) if len(pp) == 1 else None
+                    if is_list(ft) and isinstance(ft[1], tuple) and ft[1][0] == "struct" and not self.is_record(ft[1]):
+                        self.elem_nominal["self." + ".".join(pp)] = (ft[1][1], self.struct_unit(ft[1][1]).rel)
+                self.body = self.selfvars(self.body)
+
+    def selfvars(self, e):
+        """self.f (a field of the struct, for a `&mut self` method) -> the variable `self.f`"""
+        if isinstance(e, list):
+            return [self.selfvars(x) for x in e]
+        if not isinstance(e, tuple) or not e:
+            return e
+        if e[0] == "field":
+            names = self.chain(e)
+            if names is not None:
+                r = self.resolve_chain(names)
+                if r[0] == "leaf" and r[1] in self.path_coq and len(names) == len(r[1]):
+                    return ("var", "self." + ".".join(r[1]))
+        return tuple(self.selfvars(x) if isinstance(x, (tuple, list)) else x for x in e)
 
     def pick(self, unit, owner, fname, trait):
         cands = unit.fns5.get((owner, fname), [])
@@ -1380,9 +1474,12 @@ class FnT5(FnTranslator):
         if k == "str":
             return "str"
         if k == "structlit":
-            return ("record", self.owner, self.unit.rel)
+            return self.norm(("struct", self.owner), self.unit.rel)
         if k == "array":
-            return exp if is_list(exp) else None
+            if is_list(exp):
+                return exp
+            t0 = self.ty(e[1][0], None, env) if e[1] else None
+            return ("slice", t0) if t0 is not None else None
         if self.identity_chain(e) is not None:
             return self.ty(self.identity_chain(e), exp, env)
         if self.fold_pattern(e) is not None:
@@ -1399,6 +1496,8 @@ class FnT5(FnTranslator):
             ot = self.ty(e[1], None, env)
             if isinstance(ot, tuple) and ot[0] == "option":
                 return "bool"
+        if k == "mcall" and e[2] == "map_or" and len(e[3]) == 2 and e[3][1][0] == "closure" and len(e[3][1][1]) == 1:
+            return self.ty(e[3][0], exp, env) or exp
         if k == "mcall" and e[2] == "len" and not e[3] and self.soa_chain(e[1]) is not None:
             return "usize"
         if k == "mcall" and e[2] == "len" and not e[3] and e[1][0] == "var" and e[1][1] in env \
@@ -1413,6 +1512,9 @@ class FnT5(FnTranslator):
             return "@T"
         if k == "call" and e[1] in (["Vec", "with_capacity"], ["Vec", "new"]):
             return exp if is_list(exp) else ("slice", "?")
+        if k == "call" and len(e[1]) == 2 and e[1][1] == "default" and not e[3] and self.default_struct(e[1][0]) is not None:
+            st = self.default_struct(e[1][0])
+            return self.norm(("struct", st[0]), st[1])
         if k == "lit" and exp == "@T":
             return None
         if k == "mcall" and e[2] == "as_" and not e[3]:
@@ -1438,6 +1540,8 @@ class FnT5(FnTranslator):
                 return self.norm_ret(self.method_sig(st[0], st[1], m))
             rt = self.ty(e[1], None, env)
             if m == "get" and is_list(rt) and len(e[3]) == 1:
+                return ("option", rt[1])
+            if m == "last" and is_list(rt) and not e[3]:
                 return ("option", rt[1])
             if m == "get_unchecked" and is_list(rt) and len(e[3]) == 1:
                 return rt[1]
@@ -1492,6 +1596,28 @@ class FnT5(FnTranslator):
             if isinstance(e, tuple) and e and e[0] == "index" and e[2] == ("var", name):
                 found.append("usize")
                 return
+            if isinstance(e, tuple) and e and e[0] == "bin" and e[1] not in ("<<", ">>", "&&", "||"):
+                for a, b in ((e[2], e[3]), (e[3], e[2])):
+                    if a[0] == "index" and a[1] == ("var", name):
+                        t = tyq(b, env)
+                        if t in INT:
+                            found.append(("slice", t))
+                            return
+            if isinstance(e, tuple) and e and e[0] in ("call", "mcall") and any(a in (("ref", ("var", name)), ("var", name)) for a in e[-1]):
+                try:
+                    sig = self.static_sig(e[1]) if e[0] == "call" else None
+                    if sig is None and e[0] == "mcall":
+                        st = self.struct_type_of(e[1], env)
+                        sig = self.method_sig(st[0], st[1], e[2]) if st else None
+                    if sig is not None:
+                        for a, (_, pt) in zip(e[-1], sig.params):
+                            if a in (("ref", ("var", name)), ("var", name)):
+                                pt = self.norm(pt, getattr(sig, "rel", self.unit.rel)) if isinstance(pt, tuple) else pt
+                                if pt in INT or pt in SINT or is_list(pt):
+                                    found.append(pt)
+                                    return
+                except Unsupported:
+                    pass
             if isinstance(e, tuple) and e and e[0] == "call" and ("var", name) in e[3]:
                 try:
                     sig = self.static_sig(e[1])
@@ -1525,6 +1651,11 @@ class FnT5(FnTranslator):
                     names = s[1] if isinstance(s[1], list) else [s[1]]
                     if name in names:
                         return
+                    if isinstance(s[1], str) and s[3] is not None and s[3][0] == "call" and s[3][1] in (["Vec", "with_capacity"], ["Vec", "new"]) \
+                            and len(s[3][2]) == 1 and isinstance(s[3][2][0], tuple) and s[3][2][0][0] == "struct" and s[1] not in self.elem_nominal:
+                        u_ = self.world.home(self.unit.rel, s[3][2][0][1])
+                        if u_ is not None and s[3][2][0][1] in u_.structs5:
+                            self.elem_nominal[s[1]] = (s[3][2][0][1], u_.rel)
                     try:
                         self.let_types(s, env, lambda a, b: env.__setitem__(a, (a, b, -1)), (stmts[n + 1:], None, None))
                     except Unsupported:
@@ -1536,6 +1667,12 @@ class FnT5(FnTranslator):
                         if t in INT:
                             found.append(t)
                             return
+                    if s[1][0] == "index" and s[1][1] == ("var", name) and s[2] not in ("<<", ">>"):
+                        t = tyq(s[3], env)
+                        if t in INT:
+                            found.append(("slice", t))
+                            return
+                    expr(s[1], env)
                     expr(s[3], env)
                 elif s[0] == "call":
                     if s[1][2] == "push" and s[1][1] == ("var", name) and len(s[1][3]) == 1:
@@ -1593,6 +1730,13 @@ class FnT5(FnTranslator):
             if a2 != ann:
                 s = (s[0], pat, a2, init)
                 ann = a2
+        if ann is None and init is not None and init[0] == "array" and isinstance(pat, str) and rest is not None \
+                and self.ty(init, None, env) is None:
+            t = self.later_type(pat, rest, env)
+            if not is_list(t):
+                self.fail("element type of the array `%s`" % pat)
+            bind(pat, t)
+            return t
         if ann is None and init is not None and init[0] == "call" and init[1] in (["Vec", "with_capacity"], ["Vec", "new"]) \
                 and isinstance(pat, str) and rest is not None:
             t = self.later_type(pat, rest, env)
@@ -1640,6 +1784,11 @@ class FnT5(FnTranslator):
             return (self.owner, self.unit.rel)
         if k == "var":
             return self.nominal.get(e[1]) if e[1] in env else None
+        if k == "mcall" and e[2] == "unwrap" and not e[3] and e[1][0] == "mcall" and e[1][2] in ("last", "last_mut") and not e[1][3] \
+                and e[1][1][0] == "var" and e[1][1][1] in self.elem_nominal:
+            return self.elem_nominal[e[1][1][1]]
+        if k == "call" and len(e[1]) == 2 and e[1][1] == "new" and self.default_struct(e[1][0]) is not None:
+            return self.default_struct(e[1][0])
         if k == "field" and e[1][0] == "var" and e[1][1] in env and isinstance(env[e[1][1]][1], tuple) \
                 and env[e[1][1]][1][0] == "recparam":
             ent = env[e[1][1]][1][3].get(e[2])
@@ -1771,7 +1920,7 @@ class FnT5(FnTranslator):
                     nt = self.norm(fty, self.unit.rel)
                     self.need(fe, nt, env, nt)
                     vals.append(self.val(fe, nt, cx))
-            return "(" + ", ".join(vals) + ")", True
+            return ("(" + ", ".join(vals) + ")") if len(vals) != 1 else vals[0], True
         if k == "array":
             t = self.ty(e, exp, env)
             if not is_list(t):
@@ -1808,6 +1957,19 @@ class FnT5(FnTranslator):
             a = self.val(X, None, cx)
             kv = self.val(kx, tl[1][1][0], cx)
             return app("obsearch_fst", a, kv), False
+        if k == "mcall" and e[2] == "map_or" and len(e[3]) == 2 and e[3][1][0] == "closure" and len(e[3][1][1]) == 1:
+            ot = self.ty(e[1], None, env)
+            if not (isinstance(ot, tuple) and ot[0] == "option"):
+                self.fail("`.map_or(..)` on %s" % (ot,))
+            t = self.need(e, exp, env)
+            ov = self.val(e[1], None, cx)
+            dv = self.val(e[3][0], t, cx)
+            sub = Cx(self, env, cx.depth + 1)
+            xc = sub.bind(e[3][1][1][0], ot[1])
+            body = self.block_val(e[3][1][2], t, sub)
+            if len(body) == 1 and body[0].startswith("Val "):
+                return "match %s with None => %s | Some %s => %s end" % (ov, dv, xc, body[0][4:]), True
+            return "(match %s with\n| None => Val %s\n| Some %s =>\n%s\nend)" % (ov, paren(dv), xc, "\n".join("    " + l for b in body for l in b.split("\n"))), False
         if k == "mcall" and e[2] in ("is_none", "is_some") and not e[3] and isinstance(self.ty(e[1], None, env), tuple) \
                 and self.ty(e[1], None, env)[0] == "option":
             a = self.val(e[1], None, cx)
@@ -1842,6 +2004,8 @@ class FnT5(FnTranslator):
                 self.need(a, "usize", env, "usize")
                 self.val(a, "usize", cx)
             return "[]", True
+        if k == "call" and len(e[1]) == 2 and e[1][1] == "default" and not e[3] and self.default_struct(e[1][0]) is not None:
+            return self.default_elem(self.default_struct(e[1][0])), True
         if k == "mcall" and e[2] == "as_" and not e[3]:
             rt = self.ty(e[1], None, env)
             a = self.val(e[1], None, cx)
@@ -1929,6 +2093,8 @@ class FnT5(FnTranslator):
                 a = self.val(e[1], None, cx)
                 self.need(e[3][0], "usize", env, "usize")
                 return app("nthN", a, self.val(e[3][0], "usize", cx)), True
+            if m == "last" and is_list(rt) and not e[3]:
+                return app("last_opt", self.val(e[1], None, cx)), True
             if m == "get_unchecked" and is_list(rt):
                 a = self.val(e[1], None, cx)
                 self.need(e[3][0], "usize", env, "usize")
@@ -1968,9 +2134,9 @@ class FnT5(FnTranslator):
         fl = ValFlow(t)
         return self.seq(blk[1], blk[2], cx, fl)
 
-    def emit_call5(self, sig, recv, args, cx):
-        if sig.selfkind == "mut":
-            self.fail("call of %s (`&mut self`)" % sig.coq)
+    def emit_call5(self, sig, recv, args, cx, allow_mut=False):
+        if sig.selfkind == "mut" and not allow_mut:
+            self.fail("call of %s (`&mut self`) in an expression" % sig.coq)
         if bool(sig.selfkind) != (recv is not None):
             self.fail("call of %s (receiver kind)" % sig.coq)
         if len(args) != len(sig.params):
@@ -2229,8 +2395,9 @@ class FnT5(FnTranslator):
                     if s[0] == "let":
                         expr(s[3], declared)
                 elif s[0] == "assign":
-                    if s[1][0] == "var":
-                        n = s[1][1]
+                    tg = s[1][1] if s[1][0] == "index" else s[1]
+                    if tg[0] == "var":
+                        n = tg[1]
                         if n not in declared and n in env and n not in out:
                             out.append(n)
                     else:
@@ -2240,9 +2407,19 @@ class FnT5(FnTranslator):
                     expr(s[1], declared)
                 elif s[0] == "call":
                     tgt = s[1][1]
-                    if s[1][2] == "push" and tgt[0] == "index" and tgt[1][0] == "var":
+                    m = s[1][2]
+                    if tgt[0] == "mcall" and tgt[2] == "unwrap" and tgt[1][0] == "mcall" and tgt[1][2] == "last_mut" and tgt[1][1][0] == "var":
+                        n = tgt[1][1][1]
+                        if n not in declared and n in env and n not in out:
+                            out.append(n)
+                    if tgt == ("self",) and self.is_mut:
+                        # a call of another `&mut self` method: every field may change
+                        for n in env:
+                            if n.startswith("self.") and n not in out:
+                                out.append(n)
+                    if tgt[0] == "index" and tgt[1][0] == "var" and (m == "push" or tgt[1][1] in self.elem_nominal):
                         tgt = tgt[1]
-                    if s[1][2] == "push" and tgt[0] == "var":
+                    if tgt[0] == "var" and (m in ("push", "resize_with") or tgt[1] in self.elem_nominal):
                         n = tgt[1]
                         if n not in declared and n in env and n not in out:
                             out.append(n)
@@ -2253,6 +2430,10 @@ class FnT5(FnTranslator):
                     walk(s[5][1], declared | {s[1]})
                 elif s[0] == "foriter":
                     walk(s[4][1], declared | {s[2]} | ({s[1]} if s[1] else set()))
+                elif s[0] == "formut":
+                    if s[2][0] == "var" and s[2][1] not in declared and s[2][1] in env and s[2][1] not in out:
+                        out.append(s[2][1])
+                    walk(s[3][1], declared | {s[1]})
 
         def expr(e, declared):
             if isinstance(e, tuple) and e:
@@ -2266,6 +2447,14 @@ class FnT5(FnTranslator):
                     expr(e[2], declared)
                     if e[3] is not None:
                         expr(e[3], declared)
+                    return
+                if e[0] == "iflet":
+                    lm = self.last_mut_pattern(e)
+                    if lm is not None and lm[0] in env and lm[0] not in declared and lm[0] not in out:
+                        out.append(lm[0])
+                    expr(e[3], declared | {e[1]})
+                    if e[4] is not None:
+                        expr(e[4], declared)
                     return
                 for x in e:
                     if isinstance(x, (tuple, list)):
@@ -2358,6 +2547,12 @@ class FnT5(FnTranslator):
                 else:
                     st = self.struct_type_of(s[3], cx.env)
                     pat = cx.bind(s[1], t)
+                    if s[3][0] == "call" and s[3][1] in (["Vec", "with_capacity"], ["Vec", "new"]) and len(s[3][2]) == 1 \
+                            and isinstance(s[3][2][0], tuple) and s[3][2][0][0] == "struct":
+                        nm = s[3][2][0][1]
+                        u = self.world.home(self.unit.rel, nm)
+                        if u is not None and nm in u.structs5:
+                            self.elem_nominal[s[1]] = (nm, u.rel)
                     if st is not None:
                         self.nominal[s[1]] = st
                     else:
@@ -2374,8 +2569,38 @@ class FnT5(FnTranslator):
                 return L + flow.ret(self, s[1], cx)
             elif k == "break":
                 return L + flow.brk(self, cx)
+            elif k == "formut":
+                _, x, lst, body = s
+                if not (lst[0] == "var" and lst[1] in cx.env and is_list(cx.env[lst[1]][1])):
+                    self.fail("`for x in &mut L` over something else than a local list")
+                coq, t, depth = cx.env[lst[1]]
+                if depth != cx.depth:
+                    self.fail("`for x in &mut %s` from a nested block" % lst[1])
+                if self.assigned_outer(body, cx.env):
+                    self.fail("`for x in &mut L` whose body assigns variables of the enclosing blocks")
+                sub = Cx(self, cx.env, cx.depth + 1)
+                xc = sub.bind(x, t[1])
+                bl = self.seq(body[1], None, sub, EndFlow([xc], None))
+                L.append("\n".join(["let! %s := omap (fun %s =>" % (coq, xc)] + ["    " + l for b in bl for l in b.split("\n")] + ["  ) %s in" % coq]))
             elif k in ("while", "for", "foriter"):
                 return self.loop(s, rest, tail, cx, flow)
+            elif k == "expr" and s[1][0] == "iflet" and self.last_mut_pattern(s[1]) is not None:
+                v, x, m, margs = self.last_mut_pattern(s[1])
+                if v not in cx.env or v not in self.elem_nominal:
+                    self.fail("`last_mut()` of `%s`" % v)
+                coq, t, depth = cx.env[v]
+                if depth != cx.depth:
+                    self.fail("mutation of `%s` from a nested block" % v)
+                st = self.elem_nominal[v]
+                sig = self.method_sig(st[0], st[1], m)
+                if sig.selfkind != "mut" or len(sig.fields) != 1:
+                    self.fail("call of `.%s(..)` on the last element of `%s`" % (m, v))
+                vs = []
+                for a, (_, pt) in zip(margs, sig.params):
+                    self.need(a, pt, cx.env, pt)
+                    vs.append(self.val(a, pt, cx))
+                L.append("let! %s := (match last_opt %s with\n  | Some last_ => let! e_ := %s in Val (set_last %s e_)\n  | None => Val %s\n  end) in"
+                         % (coq, coq, app(sig.coq, "last_", *vs), coq, coq))
             elif k == "expr" and s[1][0] == "iflet":
                 _, x, oe, th, el = s[1]
                 if not self.diverges(th) or (el is not None and self.may_leave(el)):
@@ -2441,6 +2666,28 @@ class FnT5(FnTranslator):
                 self.fail("statement `%s`" % k)
         return L + flow.end(self, tail, cx)
 
+    def default_struct(self, name):
+        """(struct, rel) when `name` is a one-field struct of this file (Name::default())"""
+        u = self.world.home(self.unit.rel, name)
+        if u is not None and name in u.structs5 and len(u.struct_fields(name, self.where)) == 1:
+            return (name, u.rel)
+        return None
+
+    def default_elem(self, st):
+        """Default::default() of a one-field struct whose field is an integer array: the list of its zeros"""
+        fl = self.world.unit(st[1]).struct_fields(st[0], self.where)
+        if len(fl) == 1 and isinstance(fl[0][1], tuple) and fl[0][1][0] == "array" and fl[0][1][1] in INT:
+            return "[" + "; ".join(["0"] * fl[0][1][2]) + "]"
+        self.fail("default value of %s" % st[0])
+
+    def last_mut_pattern(self, e):
+        """if let Some(x) = v.last_mut() { x.m(args); }  ->  (v, x, m, args)"""
+        if e[0] == "iflet" and e[4] is None and e[2][0] == "mcall" and e[2][2] == "last_mut" and not e[2][3] and e[2][1][0] == "var":
+            th = e[3]
+            if th[2] is None and len(th[1]) == 1 and th[1][0][0] == "call" and th[1][0][1][1] == ("var", e[1]):
+                return e[2][1][1], e[1], th[1][0][1][2], th[1][0][1][3]
+        return None
+
     def soa_elem_init(self, e):
         """`&self.v[ix]` with v a slice of several-field structs: (soa, ix)"""
         while e[0] == "ref" or (e[0] == "un" and e[1] == "*"):
@@ -2479,6 +2726,75 @@ class FnT5(FnTranslator):
             return
         if m == "shrink_to_fit" and not args and recv[0] == "var" and recv[1] in cx.env and is_list(cx.env[recv[1]][1]):
             return
+        if recv[0] == "mcall" and recv[2] == "unwrap" and not recv[3] and recv[1][0] == "mcall" and recv[1][2] == "last_mut" \
+                and not recv[1][3] and recv[1][1][0] == "var" and recv[1][1][1] in self.elem_nominal and recv[1][1][1] in cx.env:
+            # v.last_mut().unwrap().m(args): the last element is replaced by its new value (Fault Panic when v is empty)
+            v = recv[1][1][1]
+            coq, t, depth = cx.env[v]
+            if depth != cx.depth:
+                self.fail("mutation of `%s` from a nested block" % v)
+            st = self.elem_nominal[v]
+            sig = self.method_sig(st[0], st[1], m)
+            if sig.selfkind != "mut" or len(sig.fields) != 1:
+                self.fail("call of `.%s(..)` on the last element of `%s`" % (m, v))
+            vs = []
+            for a, (_, pt) in zip(args, sig.params):
+                pt = self.norm(pt, getattr(sig, "rel", self.unit.rel)) if isinstance(pt, tuple) else pt
+                self.need(a, pt, cx.env, pt)
+                vs.append(self.val(a, pt, cx))
+            cx.lines.append("let! %s := (match last_opt %s with\n  | Some last_ => let! e_ := %s in Val (set_last %s e_)\n  | None => Fault Panic\n  end) in"
+                            % (coq, coq, app(sig.coq, "last_", *vs), coq))
+            return
+        if recv == ("self",) and self.is_mut:
+            sig = self.method_sig(self.owner, self.unit.rel, m)
+            if sig.selfkind == "mut":
+                if sig.ret != "unit":
+                    self.fail("`&mut self` method with a result called as a statement")
+                call, _ = self.emit_call5(sig, recv, args, cx, allow_mut=True)
+                names = []
+                for pp in self.paths:
+                    n = "self." + ".".join(pp)
+                    coq, t, depth = cx.env[n]
+                    if depth != cx.depth:
+                        self.fail("call of `self.%s(..)` from a nested block" % m)
+                    names.append(coq)
+                cx.lines.append("let! %s := %s in" % (self.tuple_pat(names), call))
+                return
+        if recv[0] == "index" and recv[1][0] == "var" and recv[1][1] in self.elem_nominal and recv[1][1] in cx.env:
+            # v[i].m(args) with m a `&mut self` method of the element struct: the element is replaced by its new value
+            v = recv[1][1]
+            coq, t, depth = cx.env[v]
+            if depth != cx.depth:
+                self.fail("mutation of `%s[..]` from a nested block" % v)
+            st = self.elem_nominal[v]
+            sig = self.method_sig(st[0], st[1], m)
+            if sig.selfkind != "mut" or len(sig.fields) != 1:
+                self.fail("call of `.%s(..)` on an element of `%s`" % (m, v))
+            self.need(recv[2], "usize", cx.env, "usize")
+            iv = self.val(recv[2], "usize", cx)
+            if not re.fullmatch(r"[A-Za-z_][A-Za-z0-9_']*|[0-9]+", iv):
+                nm = self.fresh()
+                cx.lines.append("let %s := %s in" % (nm, iv))
+                iv = nm
+            e0 = self.fresh()
+            cx.lines.append("let! %s := %s in" % (e0, app("idx", coq, iv)))
+            vs = []
+            for a, (_, pt) in zip(args, sig.params):
+                self.need(a, pt, cx.env, pt)
+                vs.append(self.val(a, pt, cx))
+            e1 = self.fresh()
+            cx.lines.append("let! %s := %s in" % (e1, app(sig.coq, e0, *vs)))
+            cx.lines.append("let %s := %s in" % (coq, app("setN", coq, iv, e1)))
+            return
+        if m == "resize_with" and recv[0] == "var" and recv[1] in self.elem_nominal and recv[1] in cx.env and len(args) == 2 \
+                and args[1] in (("path", ["Default", "default"], []), ("var", "Default::default")):
+            coq, t, depth = cx.env[recv[1]]
+            if depth != cx.depth:
+                self.fail("resize of `%s` from a nested block" % recv[1])
+            self.need(args[0], "usize", cx.env, "usize")
+            nv = self.val(args[0], "usize", cx)
+            cx.lines.append("let %s := %s in" % (coq, app("resize_with", coq, nv, self.default_elem(self.elem_nominal[recv[1]]))))
+            return
         if m.startswith("prefetch"):
             soa = self.soa_recv(recv)
             if soa is not None:
@@ -2504,6 +2820,21 @@ class FnT5(FnTranslator):
 
     def assign5(self, s, cx):
         _, lhs, op, rhs = s
+        if lhs[0] == "index" and lhs[1][0] == "var" and lhs[1][1] in cx.env and is_list(cx.env[lhs[1][1]][1]):
+            coq, t, depth = cx.env[lhs[1][1]]
+            if depth != cx.depth:
+                self.fail("assignment to `%s[..]` from a nested block" % lhs[1][1])
+            et = t[1]
+            # Rust evaluates the right operand of `a[i] op= v` on primitives first, then the place
+            self.need(rhs, et, cx.env, et)
+            v = self.val(rhs, et, cx)
+            self.need(lhs[2], "usize", cx.env, "usize")
+            iv = self.val(lhs[2], "usize", cx)
+            old = self.fresh()
+            cx.lines.append("let! %s := %s in" % (old, app("idx", coq, iv)))
+            new = self.val(("bin", op, ("term", old, et), ("term", v, et)), et, cx) if op else v
+            cx.lines.append("let %s := %s in" % (coq, app("setN", coq, iv, new)))
+            return
         if lhs[0] != "var":
             self.fail("assignment target")
         if lhs[1] not in cx.env:
@@ -2542,7 +2873,19 @@ class FnT5(FnTranslator):
                 if n not in assigned:
                     assigned.append(n)
         if not assigned:
-            self.fail("`if` statement without effect on the enclosing variables")
+            # only assertions (and loops of assertions) inside: a unit-valued conditional
+            self.need(c, "bool", cx.env, "bool")
+            cv = self.val(c, "bool", cx)
+            arms = []
+            for blk in (th, el):
+                if blk is None:
+                    arms.append(["Val tt"])
+                    continue
+                sub = Cx(self, cx.env, cx.depth + 1)
+                arms.append(self.seq(blk[1], None, sub, EndFlow([], None)))
+            cx.lines.append("\n".join(["let! _ := (if %s then" % cv] + ["  " + l for a in arms[0] for l in a.split("\n")]
+                                      + ["else"] + ["  " + l for a in arms[1] for l in a.split("\n")] + [") in"]))
+            return
         for n in assigned:
             if cx.env[n][2] != cx.depth:
                 self.fail("assignment to `%s` from a nested block" % n)
@@ -2690,7 +3033,13 @@ class FnT5(FnTranslator):
                 names.append(cx.bind(pn, nt))
         rett = self.norm(self.ret, self.unit.rel) if isinstance(self.ret, tuple) else self.ret
         self.ret = rett
-        lines = self.seq(self.body[1], self.body[2], cx, FnFlow(rett))
+        if self.is_mut:
+            for pp in self.paths:
+                cx.env["self." + ".".join(pp)] = (self.path_coq[pp], self.path_ty[pp], 0)
+            flow0 = MutFlow(rett, [("self." + ".".join(pp)) for pp in self.paths])
+        else:
+            flow0 = FnFlow(rett)
+        lines = self.seq(self.body[1], self.body[2], cx, flow0)
         if "@T" in repr(ptys) or "@T" in repr(rett) or any("@T" in repr(self.path_ty[p]) for p in self.paths):
             self.needs_w = True
         binders = (["(fuel : nat)"] if self.needs_fuel else []) + (["(wT : N)"] if self.needs_w else []) + \
@@ -2699,6 +3048,9 @@ class FnT5(FnTranslator):
         if isinstance(rett, tuple) and rett[0] == "record":
             # a struct with several fields is returned as the tuple of its fields, in declaration order
             rcoq = " * ".join(paren(coq_type5(tt)) for _, tt in self.leaf_paths(("struct", rett[1]), self.world.unit(rett[2])))
+        elif self.is_mut:
+            parts = [paren(coq_type5(self.path_ty[pp])) for pp in self.paths] + ([paren(coq_type5(rett))] if rett != "unit" else [])
+            rcoq = " * ".join(parts)
         else:
             rcoq = coq_type5(rett)
         out = ["(* %s: %s%s *)" % (self.unit.rel, self.header, "   with " + ", ".join("%s = %s" % kv for kv in self.cparams.items()) if self.cparams else ""),
@@ -2741,6 +3093,33 @@ class FnFlow:
         return "Val None"
 
 
+class MutFlow(FnFlow):
+    """a `&mut self` method: leaving it yields the current values of the struct's fields (and its result)"""
+
+    def __init__(self, ret, selfnames):
+        self.exp, self.selfnames = ret, selfnames
+
+    def leaves(self, tr, cx):
+        return [cx.env[n][0] for n in self.selfnames]
+
+    def ret(self, tr, e, cx):
+        if self.exp == "unit":
+            if e is not None:
+                tr.fail("value returned from a unit method")
+            return ["Val (%s)" % ", ".join(self.leaves(tr, cx))] if len(self.selfnames) > 1 else ["Val " + self.leaves(tr, cx)[0]]
+        if e is None:
+            tr.fail("`return;` in a method with a result")
+        v = tr.val(e, self.exp, cx)
+        tr.need(e, self.exp, cx.env, self.exp)
+        return ["Val (%s)" % ", ".join(self.leaves(tr, cx) + [v])]
+
+    def end(self, tr, tail, cx):
+        return self.ret(tr, tail, cx)
+
+    def retd(self, v):
+        return "Val " + v
+
+
 class LoopFlow:
     def __init__(self, names, outer):
         self.names, self.outer, self.exp = names, outer, None
@@ -2757,6 +3136,8 @@ class LoopFlow:
             tr.fail("`return;`")
         if self.fnflow is None:
             tr.fail("`return` in a loop inside a conditional assignment / value block")
+        if isinstance(self.fnflow, MutFlow):
+            tr.fail("`return` inside a loop of a `&mut self` method")
         exp = self.fnflow.exp
         v = tr.val(e, exp, cx)
         tr.need(e, exp, cx.env, exp)
@@ -2856,6 +3237,19 @@ From QwtModel Require Import ListX Loops SelTable Words%s.
 """
 
 
+BV_GROUP_COQ = {"g_get_bit_slice", "g_get_bits_slice"}     # BitVectorMut::get_bit_slice belongs to the BitVector accessors (group bv)
+
+
+def in_group(group, owners_g, owner, coq):
+    if owners_g is None:
+        return True
+    if group == "bv":
+        return (owner in ("DataLine", "BitVector") and coq != "g_bline_set_symbol") or coq in BV_GROUP_COQ
+    if group == "bvm":
+        return (owner == "BitVectorMut" and coq not in BV_GROUP_COQ) or coq == "g_bline_set_symbol"
+    return owner in owners_g
+
+
 def generate(repo, group, count=None):
     world = World(repo)
     rel_g, owners_g = GROUPS[group]
@@ -2874,8 +3268,19 @@ def generate(repo, group, count=None):
                 sig.rel = rel
                 world.sigs.setdefault((rel, owner, fname), sig)
                 continue
-            text, sig = FnT5(world, unit, owner, fname, coq, subst).translate()
-            sig.t5 = True
+            if subst.get("__t3__"):
+                # a `&mut self` method of a one-field struct: T3's translator (the new value of the field is the result)
+                if unit.cparams:
+                    unit._consts = {}
+                unit.cparams = {}
+                unit.items["fn"] = {k: [i for i, _ in v] for k, v in unit.fns5.items()}
+                text, sig = FnTranslator(unit, owner, fname, coq, {}, {k: v for k, v in world.sigs.items() if not getattr(v, "t5", False)}).translate()
+                sig.fields = list(sig.fields)
+                sig.rel = rel
+                subst = {}
+            else:
+                text, sig = FnT5(world, unit, owner, fname, coq, subst).translate()
+                sig.t5 = True
         except Unsupported:
             if n >= T5_START and rel != rel_g:
                 # a function of another group failed: only this group's callers of it are affected
@@ -2890,7 +3295,7 @@ def generate(repo, group, count=None):
             world.monosigs.setdefault(key, []).append((dict(subst), sig))
         else:
             world.sigs.setdefault(key, sig)
-        if rel == rel_g and (owners_g is None or owner in owners_g):
+        if rel == rel_g and in_group(group, owners_g, owner, coq):
             count[0] += 1
             out.append(text)
     return "\n".join(out)
